@@ -7,7 +7,7 @@ exception, RuntimeLimit error."""
 import json
 import re
 
-from .. import build, core, diffrun, gen_core, gen_gc, gen_opt, gen_shape, mutate, reduce as reducer, runner
+from .. import build, core, diffrun, gen_core, gen_gc, gen_opt, gen_priv, gen_shape, mutate, reduce as reducer, runner
 from ..core import norm_hash
 from ..rng import Rng
 
@@ -48,6 +48,8 @@ def run(tier, seed, flavour="native"):
             valid.append(gen_shape.generate(seed, i))
         else:
             valid.append(gen_gc.program(seed, i)[0])
+    # private names in every syntactic position (their early errors are what the compiler's `unreachable!`s rely on)
+    valid += [gen_priv.generate(seed, i) for i in range(n_valid // 2)]
     snippets = mutate.harvest_repo_snippets()
     pool = valid + snippets
     inputs = [("valid", v.encode("utf8")) for v in valid] + [("repo-snippet", s.encode("utf8", "replace")) for s in snippets]
@@ -164,7 +166,7 @@ def run(tier, seed, flavour="native"):
                        "flavour: %s (debug assertions and overflow checks on)" % flavour]
     return chk.finish(
         evaluations=evaluated, distinct_nontrivial=len(distinct),
-        rule="inputs: generated programs of every profile (core incl. eval/with, opt, shape, gc), repository test snippets, token- and byte-level mutants, random bytes; fed as "
+        rule="inputs: generated programs of every profile (core incl. eval/with, opt, shape, gc, private-name placements), repository test snippets, token- and byte-level mutants, random bytes; fed as "
              "bytes through a 1-byte-at-a-time reader to Context::eval followed by run_jobs; a third on fresh contexts, the rest 20 per context; a quarter under tiny limits; "
              "non-trivial = an evaluation that ended in an allowed outcome; distinct by input hash",
         samples=[inputs[order[0]][1].decode("utf8", "replace")[:200], inputs[order[1]][1].hex()[:160]],
